@@ -15,7 +15,7 @@ use crate::{
     Emitter,
 };
 
-const TYPES: &[&str] = &[
+pub const TYPES: &[&str] = &[
     "m.room.member",
     "m.room.create",
     "m.room.join_rules",
@@ -42,6 +42,29 @@ const CONTENT_KEYS: &[&str] = &[
     "history_visibility", "redacts", "aliases", "deny", "allow_ip_literals", "room_version", "m.federate", "body",
     "notifications", "displayname", "Membership",
 ];
+
+/// An event of the given type carrying every top-level and content key any version speaks about.
+pub fn full_event(ty: &str) -> CanonicalJsonObject {
+    let mut all = CanonicalJsonObject::new();
+    for k in CONTENT_KEYS {
+        let val = if *k == "third_party_invite" {
+            let mut o = CanonicalJsonObject::new();
+            o.insert("signed".into(), CanonicalJsonValue::Bool(true));
+            o.insert("display_name".into(), CanonicalJsonValue::Null);
+            CanonicalJsonValue::Object(o)
+        } else {
+            CanonicalJsonValue::String((*k).to_owned())
+        };
+        all.insert((*k).to_owned(), val);
+    }
+    let mut ev = CanonicalJsonObject::new();
+    for k in TOP_KEYS {
+        ev.insert((*k).to_owned(), CanonicalJsonValue::String((*k).to_owned()));
+    }
+    ev.insert("type".into(), CanonicalJsonValue::String(ty.to_owned()));
+    ev.insert("content".into(), CanonicalJsonValue::Object(all));
+    ev
+}
 
 fn err_code(e: &RedactionError) -> i128 {
     match e {
